@@ -185,7 +185,8 @@ PROPS['C08'] = Prop(
 PROPS['C14'] = Prop(
     functions=['_checks:RoleCheck.__call__', '_checks:GenericCheck.__call__', '_checks:GenericCheck._find_in_dict',
                '_checks:RuleCheck.__call__', '_checks:NotCheck.__call__', '_checks:AndCheck.__call__',
-               '_checks:OrCheck.__call__', '_checks:_check', 'policy:Rules.__missing__', 'policy:Enforcer.authorize'],
+               '_checks:OrCheck.__call__', '_checks:_check', 'policy:Rules.__missing__', 'policy:Enforcer.authorize',
+               'policy:Enforcer._enforce_scope', 'policy:Enforcer._map_context_attributes_into_creds'],
     thorough_functions=['policy:Enforcer.enforce'],
     bounded=[('bounded.enforce', 'c14')],
     level='other',
@@ -254,7 +255,8 @@ PROPS['C11'] = Prop(
 
 PROPS['C12'] = Prop(
     functions=['policy:Enforcer._handle_deprecated_rule', '_checks:AndCheck.add_check', '_checks:OrCheck.add_check',
-               'policy:Enforcer.register_default', 'policy:Enforcer._record_file_rules', 'policy:Enforcer._load_policy_file', 'policy:Enforcer.load_rules#idle'],
+               'policy:Enforcer.register_default', 'policy:Enforcer._record_file_rules', 'policy:Enforcer._load_policy_file', 'policy:Enforcer.load_rules#idle',
+               'policy:Enforcer.set_rules'],
     bounded=[('bounded.loader', 'c12')],
     level='other',
     technique='contract-based frame obligations on the merging function (own VC generator + z3) + bounded interleavings for idempotence',
@@ -338,7 +340,7 @@ PROPS['C17'] = Prop(
 )
 
 PROPS['C18'] = Prop(
-    functions=['generator:_format_rule_line', 'policy:RuleDefault.__eq__'],
+    functions=['generator:_format_rule_line', 'policy:RuleDefault.__eq__', 'policy:Enforcer._handle_deprecated_rule'],
     bounded=[('bounded.tools', 'c18')],
     level='other',
     technique='contract-based deductive verification (own VC generator + z3) of the rule-line emitter shared by the converter and the generator; the map-level behaviour of the tools (upgrade, convert, list-redundant) is decided by a labelled bounded stand-in',
